@@ -108,6 +108,16 @@ def cases():
     add("REGEXP_REPLACE(s, '<pat>', r) keeps the replacement, global", "regex_replace",
         mk(lambda o: node("RegexpReplace", "stmt", this=op(o, "x"), expression=lit("a+", True), replacement=op(o, "r"))),
         lambda o, i: P("RegexpReplace", this=IS(o["x"]), replacement=IS(o["r"]), modifiers=LITERAL("g", True)), "replacement operand untouched")
+    def same_literal_text(v, path):
+        t = v.args.get("this") if isinstance(v, NodeV) and v.cls == "Literal" else None
+        ok = isinstance(t, Sym) and t.tag == "REPL_TEXT"
+        return None if ok else f"{path} has the text `{getattr(t, 'tag', t)}`, expected the replacement constant's own text"
+
+    add("REGEXP_REPLACE(s, '<pat>', '<replacement constant>') keeps the replacement's text as written", "regex_replace",
+        mk(lambda o: node("RegexpReplace", "stmt", this=op(o, "x"), expression=lit("a+", True),
+                          replacement=op(o, "r", lit(Sym("REPL_TEXT", typ="str", truthy=True), True)))),
+        lambda o, i: P("RegexpReplace", replacement=same_literal_text),
+        "in a replacement `\\\\` is an escaped literal backslash and `\\1` a back-reference for DuckDB as for Snowflake: halving the backslashes changes both")
     add("REGEXP_REPLACE with position/occurrence is rejected", "regex_replace",
         mk(lambda o: node("RegexpReplace", "stmt", this=op(o, "x"), expression=lit("a+", True), replacement=lit("b", True), position=lit("2", False))),
         RAISES, "unsupported extra parameters must be rejected rather than ignored")
@@ -118,9 +128,26 @@ def cases():
         a.update(kw)
         return node("RegexpExtract", "stmt", **a)
 
+    def the_pattern(o):
+        """the pattern operand itself, or a literal made from its text (the text may have its doubled backslashes halved)"""
+        def chk(v, path):
+            if v is o["pat"] or getattr(v, "copy_of", None) is o["pat"]:
+                return None
+            orig = o["pat"].args.get("this") if isinstance(o["pat"], NodeV) else None
+            t = v.args.get("this") if isinstance(v, NodeV) and v.cls == "Literal" else None
+            def same_text(a, b):
+                if a is b or (isinstance(a, Const) and isinstance(b, Const) and str(a.v).replace("\\\\", "\\") == str(b.v).replace("\\\\", "\\")):
+                    return True
+                o_ = getattr(a, "origin", None)
+                return bool(o_) and o_[0] == "method" and o_[2] == "replace" and same_text(o_[1], b)
+            if t is not None and orig is not None and same_text(t, orig):
+                return None
+            return f"{path} is `{getattr(v, 'tag', v)}`, expected the pattern operand"
+        return chk
+
     def substr_expect(o, position, occurrence, group):
         return P("Bracket", this=P("Anonymous", this="regexp_extract_all", expressions=LIST(
-            P("Bracket", this=IS(o["x"]), expressions=LIST(P("Slice", this=position))), IS(o["pat"]), group, lambda v, path: None)),
+            P("Bracket", this=IS(o["x"]), expressions=LIST(P("Slice", this=position))), the_pattern(o), group, lambda v, path: None)),
             expressions=LIST(LITERAL(occurrence, False)))
     add("REGEXP_SUBSTR(s, p): position 1, 1st occurrence (index 0 before the dialect's +1), whole match", "regex_substr", mk(lambda o: substr(o)),
         lambda o, i: substr_expect(o, LITERAL("1", False), "0", LITERAL("0", False)), "defaults: position 1, occurrence 1, group 0")
